@@ -402,17 +402,17 @@ theorem ltok_other (ext : IExt) (lx : LExt) (t : Tok) (h : t.type ≠ "link_open
 theorem ltok_text (ext : IExt) (lx : LExt) : ∀ lvl c, LTok ext lx (mkInlineTok "text" "" 0 lvl c "" "") :=
   fun _ _ => ltok_other _ _ _ (by simp [mkInlineTok, Tok.type])
 
-/-- what the link rule needs of a token predicate: tokens that are neither `link_open` nor `image` satisfy it, and so does a
+/-- what the link rule needs of a token predicate: childless `text` and `link_close` tokens satisfy it, and so does a childless
     `link_open` whose first attribute is an `href` that arose legitimately -/
 structure LinkN (ext : IExt) (lx : LExt) (N : Tok → Prop) : Prop where
-  other : ∀ t, t.children = none → t.type ≠ "link_open" → t.type ≠ "image" → N t
+  flat : ∀ t, t.children = none → t.type = "text" ∨ t.type = "link_close" → N t
   linkOpen : ∀ t href, t.children = none → t.type = "link_open" → t.attrs.head? = some ("href", .s (String.ofList href)) → LinkSrc ext lx href → N t
 
 theorem LinkN.text {ext : IExt} {lx : LExt} {N : Tok → Prop} (h : LinkN ext lx N) : ∀ lvl c, N (mkInlineTok "text" "" 0 lvl c "" "") :=
-  fun _ _ => h.other _ rfl (by simp [mkInlineTok, Tok.type]) (by simp [mkInlineTok, Tok.type])
+  fun _ _ => h.flat _ rfl (.inl rfl)
 
 theorem ltok_linkN (ext : IExt) (lx : LExt) : LinkN ext lx (LTok ext lx) :=
-  ⟨fun t _ h _ => ltok_other ext lx t h, fun _ href _ _ ha hs _ => ⟨href, ha, hs⟩⟩
+  ⟨fun t _ h => ltok_other ext lx t (by rcases h with h | h <;> rw [h] <;> decide), fun _ href _ _ ha hs _ => ⟨href, ha, hs⟩⟩
 
 theorem pushOpen_tokens (s : IState) (ty tag : String) (a : List (String × AttrVal)) (md : List (String × String)) :
     ∃ (flush : List Tok) (t : Tok), (s.pushOpen ty tag a md).tokens = s.tokens ++ flush ++ [t] ∧ t.type = ty ∧ t.attrs = a
@@ -461,7 +461,7 @@ theorem linkEmit_adds (ext : IExt) (lx : LExt) {N : Tok → Prop} (hN : LinkN ex
     intro t ht
     rw [List.mem_append] at ht
     rcases ht with ht | ht
-    · exact hN.other _ (hfl t ht).2 (by rw [(hfl t ht).1]; decide) (by rw [(hfl t ht).1]; decide)
+    · exact hN.flat _ (hfl t ht).2 (.inl (hfl t ht).1)
     · simp only [List.mem_singleton] at ht; subst ht
       exact hN.linkOpen _ href hoch hoty (by rw [hoat, ← hat]; rfl) hsrc
   have hk1 : CacheOK { s1 with linkLevel := s1.linkLevel + 1 } := by unfold CacheOK; show ∀ p ∈ s1.cache, _; rw [o5]; exact hk
@@ -492,7 +492,7 @@ theorem linkEmit_adds (ext : IExt) (lx : LExt) {N : Tok → Prop} (hN : LinkN ex
       simp only [Except.ok.injEq] at h
       subst h
       have hclose := push_addsN N hN.text { s0 with metas := (i0, s0.delimiters) :: s0.metas, delimiters := outer, scopes := rest, openAt := is }
-        "link_close" "a" (-1) "" "" "" (fun lvl => hN.other _ rfl (by simp [mkInlineTok, Tok.type]) (by simp [mkInlineTok, Tok.type]))
+        "link_close" "a" (-1) "" "" "" (fun lvl => hN.flat _ rfl (.inr rfl))
       exact adds_trans (adds_trans (adds_trans (adds_trans hopen hinner) h2') h3') hclose
     · cases h
 
